@@ -21,7 +21,8 @@ static CS104_Connection con = NULL;
 static long n_tx = 0, n_asdu = 0, n_ev = 0, n_steps = 0, n_sends = 0, n_send_refused = 0;
 /* model-free oracles */
 static int wire_fail = 0; static char wire_info[700]; static int next_ns = 0; static int kwin_fail = 0; static char kwin_info[300];
-static int life_fail = 0; static char life_info[300]; static int opened_seen = 0, end_seen = 0, attempts = 0;
+extern long mem_live, mem_allocs, mem_frees; void mem_forget_all(void);
+static int life_fail = 0; static char life_info[400]; static int opened_seen = 0, end_seen = 0, attempts = 0;
 
 static void wire_check(const uint8_t* b, int n)
 {
@@ -58,6 +59,9 @@ static int cur_task(void) { return sim_last_task; }
 static void op_new(int k, int w, int t0, int t1, int t2, int t3, int scot, int sca)
 {
     if (con) { CS104_Connection_destroy(con); con = NULL; }
+    /* C18 accounting: everything the previous connection object allocated has been freed */
+    if (mem_live != 0 && !life_fail++) snprintf(life_info, sizeof life_info, "at ops-file offset %ld: %ld allocations of the library are still live after CS104_Connection_destroy (allocs %ld, frees %ld): resources not released", (long) ftell(ops), mem_live, mem_allocs, mem_frees);
+    mem_forget_all();
     sim_reset();
     fprintf(ops, "c.new %d %d %d %d %d %d %d %d\n", k, w, t0, t1, t2, t3, scot, sca); fflush(ops);
     con = CS104_Connection_create("10.1.1.1", 2404);
@@ -131,6 +135,8 @@ static void episode(bool thorough)
             else break;
         }
         op_close();
+        /* API use on the closed / never connected object: must be refused, must not crash, must not leak */
+        if (prng_below(3) == 0) { uint8_t a[260]; int k2 = prng_range(1, 4); for (int j = 0; j < k2; j++) { int n = rnd_asdu(a, hdr); op_send(a, n); } }
     }
 }
 
@@ -144,6 +150,7 @@ int main(int argc, char** argv)
     int episodes = thorough ? 600 : 120;
     for (int e = 0; e < episodes; e++) episode(thorough);
     if (con) CS104_Connection_destroy(con);
+    if (mem_live != 0 && !life_fail++) snprintf(life_info, sizeof life_info, "at the end of the run: %ld allocations of the library are still live after CS104_Connection_destroy", mem_live);
     fclose(ops); fclose(impl);
     if (wire_fail) printf("WIRE_FAIL %s\n", wire_info);
     if (kwin_fail) printf("KWIN_FAIL %s\n", kwin_info);
